@@ -44,7 +44,7 @@ RULE = ("cases: (a) exact twin: dyadic lower-triangular L (n<=6 quick, <=10 thor
         "below the clamp. (b) end to end: create_lbfgs_arguments objective (neg. log marginal likelihood + hyperpriors) for "
         "Matern-5/2 +-ARD, warping, product, exponential-decay kernels vs Richardson differences in every internal parameter; "
         "compute_acq_with_gradient of EI / LCB on a real GaussProcPredictor with fantasies vs differences of compute_acq, "
-        "EI <= 0, closed form vs scipy.stats.norm; head gradients of EI, LCB, EIpu, CEI (feasible / infeasible) vs differences "
+        "EI <= 0, closed form vs scipy.stats.norm, also within 1e-4..1e-3 of an observed point of an almost noise-free objective; head gradients of EI, LCB, EIpu, CEI (feasible / infeasible) vs differences "
         "of the head value. non-trivial iff at least one gradient entry was compared")
 
 _DEV = {}
